@@ -19,8 +19,8 @@ PROPS = {
              "strtol/strtoul/strtoll/strtoull on the same text. non-trivial = non-zero value / non-empty text",
         exhaustive={"quick": True, "thorough": True},
         exhaustive_note="exhaustive over the 16-bit types for every base and case; wider types are covered by the theorems (all values, all widths), the correspondence samples them",
-        trusted_base=["glibc strtol/strtoul are modelled (transcription of stdlib/strtol_l.c) and validated against this platform's libc on every run through the to_* members and "
-                      "directly, not proved; the declarative numeral prefix Spec.Digits.parseSpec is checked against both on every parsing case",
+        trusted_base=["glibc strtol/strtoul are modelled (transcription of stdlib/strtol_l.c, proved equal to the declarative numeral prefix Spec.Digits.parseSpec) and validated "
+                      "against this platform's libc on every run through the to_* members and directly; that libc behaves as the transcription is not proved",
                       "UBSan (-fsanitize=undefined, no recovery) observes signed negation overflow in the real code"],
         assumptions=["LP64: long and long long are 64-bit, int 32-bit, short 16-bit; bases outside 2..36 (0 also for parsing) are outside the documented contract and not generated"],
     ),
@@ -51,8 +51,10 @@ MANIFEST_TEXT = {
         text="Theorems (Lean kernel; every value of every built-in integer type incl. the most negative, every base 2..36, both letter cases): from_int/from_uint return "
              "the canonical digit string (Spec.Digits.Canonical: digits below the base, positional value, no leading zero - shown unique), ST::format and string_stream "
              "return the same text for bases 10/16/8/2, no printer has undefined behaviour or leaves the digits+1 buffer (base 2 of the widest value is the tight case), "
-             "and parsing the text with any to_* member of the same signedness and at least the same width returns the value with ok and full_match. Flag meaning and "
-             "narrowing are proved over a transcription of glibc's strtol, which is validated (not proved) against this platform's libc on every run. The std::abs "
+             "and parsing the text with any to_* member of the same signedness and at least the same width returns the value with ok and full_match. For arbitrary text "
+             "the to_* members return the clamped, narrowed value of the declarative numeral prefix (white space, sign, optional 0x, longest digit run) with ok = prefix "
+             "non-empty and full_match = prefix is the whole string: proved for a transcription of glibc's strtol algorithm, which is validated (not proved) against this "
+             "platform's libc on every run. The std::abs "
              "undefined behaviour at INT_MIN/LONG_MIN/LLONG_MIN in ST::format and string_stream was found by this check (UBSan + failing no_ub) and repaired.",
         design_ref="DESIGN.md section 3, C12",
         note="Trusted: Lean kernel + 3 standard axioms, Spec/Digits.lean as the meaning of 'canonical digit string' and 'numeral prefix', the num harness (ASan/UBSan), "
